@@ -58,6 +58,23 @@ def sentinel(c, name, rng):
     raise KeyError((name, kind))
 
 
+def caller_buffer(rng, content):
+    """a writable buffer as callers bring them: bytearray, a memoryview of one, an array of unsigned bytes, an anonymous mmap"""
+    import array
+    import mmap
+
+    k = rng.randrange(4)
+    if k == 0:
+        return bytearray(content)
+    if k == 1:
+        return memoryview(bytearray(content))
+    if k == 2:
+        return array.array("B", bytes(content))
+    m = mmap.mmap(-1, len(content))
+    m[:] = bytes(content)
+    return m
+
+
 def response_for(c, a, rng, big=False):
     """bytes a device would return for this request (reference-encoded where a format exists); big: the device has more
     descriptors than fit the allocation length (it reports the full length and transfers what fits)"""
@@ -260,7 +277,8 @@ def run(shard, ctx):
                     for name in sub:
                         v = sentinel(c, name, rng)
                         if c.args[name][0] == "atadata":
-                            v = harness.pattern_bytes(512, 9)
+                            v = caller_buffer(rng, harness.pattern_bytes(512, 9))
+                            ctx.add("caller_buffer_types", type(v).__name__)
                         a[name] = v
                     if c.name == "ReadCd" and ("mcsb" in sub or "est" in sub):
                         # keep the selection legal so decoding is defined: mode 1 with user data
@@ -355,6 +373,15 @@ def run(shard, ctx):
                         continue
                     if id(cmd.datain) != state["in_id"] or id(cmd.dataout) != state["out_id"]:
                         ctx.fail("C13:%s.buffers_replaced" % c.facade, "cmd.datain/dataout are not the objects the device saw", wit)
+                    if c.xfer == "ata" and a.get("data") is not None and len(a["data"]):
+                        # a buffer the caller brought is the buffer the device worked on
+                        mine = a["data"]
+                        theirs = cmd.datain if full.get("t_dir") else cmd.dataout
+                        ctx.count("caller_buffers_identified")
+                        if theirs is not mine:
+                            ctx.fail("C13:%s.callers_buffer_replaced.%s" % (c.facade, type(mine).__name__),
+                                     "the %s the caller passed as data is not the buffer the command carries (%s): what the device %s never %s the caller's object"
+                                     % (type(mine).__name__, type(theirs).__name__, "writes" if full.get("t_dir") else "reads", "reaches" if full.get("t_dir") else "comes from"), wit)
                     if c.facade_unmarshall:
                         if kinds.count("unmarshall") != 1:
                             ctx.fail("C13:%s.unmarshall_count_%d" % (c.facade, kinds.count("unmarshall")), "unmarshall evaluated %d times" % kinds.count("unmarshall"), wit)
@@ -368,6 +395,19 @@ def run(shard, ctx):
                             ctx.fail("C13:%s.result_not_decode_of_device_bytes" % c.facade, "cmd.result differs from decode of the bytes the device left", wit)
                         if bytes(cmd.datain) != state["left"]:
                             ctx.fail("C13:%s.datain_modified_after_execute" % c.facade, "data-in buffer changed after the device filled it", wit)
+                        # the same request with its arguments given by position (documented order): same command, same result
+                        if not c.custom and c.xfer != "ata":
+                            dev_p = harness.Recorder(getattr(E, setname), fill)
+                            try:
+                                cmd_p = harness.facade_call_positional(c, harness.make_facade(dev_p), dict(a))
+                                ctx.count("positional_facade_calls")
+                                if len(dev_p.calls) != 1 or bytes(cmd_p.cdb) != bytes(cmd.cdb):
+                                    ctx.fail("C13:%s.positional_call_differs.command" % c.facade, "%s with positional arguments: %d commands, CDB %s (keywords: %s)"
+                                             % (c.facade, len(dev_p.calls), bytes(cmd_p.cdb).hex(), bytes(cmd.cdb).hex()), wit)
+                                elif not same(cmd_p.result, expect):
+                                    ctx.fail("C13:%s.positional_call_differs.result" % c.facade, "%s with positional arguments decodes the same device bytes differently than with keywords" % c.facade, wit)
+                            except Exception as e:  # noqa: BLE001
+                                ctx.fail("C13:%s.positional_call_raises.%s" % (c.facade, type(e).__name__), "%s with positional arguments raised %s: %s" % (c.facade, type(e).__name__, e), wit, exc=e)
                         # the caller edits the result it was given (the swp.py flow), polls the same command object again and
                         # gets the same answer from the device: the result is again the decode of what the device left.  And a
                         # deep copy of the command is independent of the original.
@@ -483,6 +523,27 @@ def run_transport(shard, ctx):
     sg, isc = sys.modules["sgio"], sys.modules["iscsi"]
     sg.handler = isc.handler = None
     rng = ctx.rng()
+    # the wall clock is part of the environment: between two calls any amount of time may pass (a session left idle over night)
+    import time as _time
+
+    real_clock = {n: getattr(_time, n) for n in ("time", "monotonic", "perf_counter", "time_ns", "monotonic_ns", "perf_counter_ns")}
+    skew = [0.0]
+    for n, fn in real_clock.items():
+        setattr(_time, n, (lambda fn=fn: fn() + int(skew[0] * 1e9)) if n.endswith("_ns") else (lambda fn=fn: fn() + skew[0]))
+    try:
+        _run_transport(shard, ctx, rng, sg, isc, skew)
+    finally:
+        for n, fn in real_clock.items():
+            setattr(_time, n, fn)
+
+
+def _run_transport(shard, ctx, rng, sg, isc, skew):
+    import pyscsi.pyscsi.scsi_enum_command as E
+
+    from vmon import harness
+    from vmon.sim import devnode, install
+    from vmon.spec import cdb as S, dataout as DO
+
     for t in ("sgio", "iscsi"):
         mod = sg if t == "sgio" else isc
         if t == "sgio":
@@ -502,9 +563,14 @@ def run_transport(shard, ctx):
                     if t == "sgio" and rng.random() < 0.4:
                         devnode.replug(node)
                         replugged = True
+                    idle = 0
+                    if rng.random() < 0.4:
+                        idle = rng.choice([31, 61, 301, 3601, 90000])
+                        skew[0] += idle
+                        ctx.count("calls_after_idle_time")
                     mod.log = []
                     label = c.facade + (":%d" % c.facade_fixed["service_action"] if c.facade_fixed else "")
-                    wit = {"method": label, "transport": t, "table": setname, "node_replaced_before_call": replugged, "args": a}
+                    wit = {"method": label, "transport": t, "table": setname, "node_replaced_before_call": replugged, "idle_seconds_before_call": idle, "args": a}
                     ctx.case(("transport", t, label, setname, replugged, rep), True, sample={"method": label, "transport": t, "node_replaced_before_call": replugged} if ctx.want_sample() else None)
                     ctx.count("transport_facade_calls")
                     try:
